@@ -38,7 +38,12 @@ const ChainID = "verif-1"
 
 var (
 	initOnce   sync.Once
-	ScratchDir = "/verif/.scratch"
+	ScratchDir = func() string {
+		if s := os.Getenv("VERIF_OUT"); s != "" {
+			return s + "/.scratch"
+		}
+		return "/verif/.scratch"
+	}()
 	BaseTime   = time.Date(2030, 1, 1, 0, 0, 0, 0, time.UTC)
 )
 
